@@ -136,7 +136,6 @@ def sample_cfg(name: str, rng, tier: str = "quick", small: bool = True) -> dict:
         cfg["gen"] = {"num_loc": n, "tech_costs": [1, 2, 3, 4][:k]}
     elif name == "op":
         cfg["gen"] = {"num_loc": n, "prize_type": rng.choice(["dist", "unif", "const"])}
-        cfg["gen"]["prize_type"] = "dist"  # TEMP until OPGenerator device fix
         if not big:
             cfg["gen"]["max_length"] = rng.choice([1.0, 1.5, 2.0, 3.0])
         cfg["kw"] = {"prize_type": cfg["gen"]["prize_type"]}
